@@ -1,5 +1,6 @@
 """Structural clauses shared by C14 (sequential) and C15 (parallel) contingency analysis."""
 import ast
+import re
 
 from ppsa.astutil import norm, names_in, calls_in, call_name, stmts_in_order, kwarg
 
@@ -69,6 +70,46 @@ def rule_order(ctx, R, fi, update_name):
            "write_to_net loop has no 'already a column' guard", fi.loc())
 
 
+def _effective_texts(fn, var, assume_parallel):
+    """possible defining expressions of `var` at the end of the innermost block that assigns it, with earlier values of `var`
+    substituted, following `if ... parallel_results ...` tests under the assumption (True/False); unknown tests take both sides"""
+    def decide(test):
+        t = ast.unparse(test)
+        if "parallel_results" not in t:
+            return None
+        if isinstance(test, ast.Name):
+            return assume_parallel
+        if isinstance(test, ast.UnaryOp) and isinstance(test.op, ast.Not) and isinstance(test.operand, ast.Name):
+            return not assume_parallel
+        if isinstance(test, ast.BoolOp) and isinstance(test.op, ast.And) and any(isinstance(v, ast.Name) and v.id == "parallel_results" for v in test.values):
+            return False if not assume_parallel else None
+        return None
+
+    def walk(body, texts):
+        for st in body:
+            if isinstance(st, ast.Assign) and any(isinstance(t, ast.Name) and t.id == var for t in st.targets):
+                v = st.value
+                if isinstance(v, ast.IfExp) and decide(v.test) is not None:
+                    v = v.body if decide(v.test) else v.orelse
+                src = ast.unparse(v)
+                new = set()
+                for prev in (texts or {""}):
+                    new.add(re.sub(rf"\b{var}\b", f"({prev})" if prev else var, src))
+                texts = new
+            elif isinstance(st, ast.If):
+                d = decide(st.test)
+                if d is True:
+                    texts = walk(st.body, texts)
+                elif d is False:
+                    texts = walk(st.orelse, texts)
+                else:
+                    texts = walk(st.body, set(texts)) | walk(st.orelse, set(texts))
+            elif isinstance(st, (ast.For, ast.While, ast.With, ast.Try)):
+                texts = walk(st.body, texts)
+        return texts
+    return walk(fn.body, set())
+
+
 def rule_update(ctx, R, fu, parallel=False):
     """masks of the min/max update, NaN-safe cause attribution, overload attribution"""
     mod, qn = fu.module.name, fu.qualname
@@ -128,6 +169,14 @@ def rule_update(ctx, R, fu, parallel=False):
         ctx.ob(R, f"{mod}::{qn}::where-own-outage:sequential", ok,
                "sequential branch excludes the outaged element (in_service mask of the mutated net)" if ok else
                f"sequential mask {seq_txt} does not depend on in_service", fu.loc(where[0]))
+        # permanently out-of-service elements have no valid result in either mode: both paths keep the in_service mask
+        for assume, label in ((True, "parallel"), (False, "sequential")):
+            eff = _effective_texts(fu.node, "where_mask", assume)
+            okm = bool(eff) and all("in_service" in t for t in eff)
+            ctx.ob(R, f"{mod}::{qn}::where-in-service:{label}", okm,
+                   f"the min/max mask of the {label} path keeps net[element].in_service" if okm else
+                   f"on the {label} path the min/max mask can be {sorted(eff)[:2]}: elements that are out of service in the base net enter "
+                   "the extremes with their 0 / stale values (sequential and parallel results differ)", fu.loc(where[0]))
         ok = any("cause_index" in t for t in par_txt)
         ctx.ob(R, f"{mod}::{qn}::where-own-outage:parallel", ok,
                "parallel branch excludes the outaged element (index != cause_index)" if ok else
